@@ -233,38 +233,109 @@ theorem decodeDate11 (y m d h mi s us : Nat) (rest : Bytes) (hy : y < 65536) (hm
     GaeaVerif.C12.ofNat_toNat m hm, GaeaVerif.C12.ofNat_toNat d hd, GaeaVerif.C12.ofNat_toNat h hh,
     GaeaVerif.C12.ofNat_toNat mi hmi, GaeaVerif.C12.ofNat_toNat s hs]
 
-theorem datetime_enc_dec (cell rest b : Bytes) (dv : Val) (h : datetimeText cell = some dv)
-    (hb : datetimeBytes cell = .ok b) : decodeDate (b ++ rest) = some (dv, rest) := by
-  unfold datetimeBytes at hb
-  by_cases hz : cell = zeroDatetimeText
-  · rw [if_pos hz] at hb
-    subst hz
-    have : datetimeText zeroDatetimeText = some (.dt 0 0 0 0 0 0 0) := by decide
-    rw [this] at h
-    cases h; cases hb; rfl
-  · rw [if_neg hz] at hb
-    obtain ⟨y0, y1, y2, y3, m0, m1, d0, d1, h0, h1, i0, i1, s0, s1, frac, y, m, d, hh, mi, sec, us, hc,
-      hy, hm, hd, hhh, hmi, hsec, hus, hm12, hd31, hh24, hmi60, hs60, hdv⟩ := datetimeText_some cell dv h
-    subst hc; subst hdv
-    have hylt := (four_some _ _ _ _ _ hy).2.2.2.2.2
-    obtain ⟨hh0, hh1, hhv, _⟩ := two_some _ _ _ hhh
-    have huslt := (parseSecFrac_shape s0 s1 frac sec us hsec hs60 hus).2
+theorem splitTextDatetime_shape (y0 y1 y2 y3 m0 m1 d0 d1 h0 h1 i0 i1 s0 s1 : UInt8) (frac : Bytes)
+    (y m d hh mi sec us : Nat)
+    (hy : four y0 y1 y2 y3 = some y) (hm : two m0 m1 = some m) (hd : two d0 d1 = some d)
+    (hhh : two h0 h1 = some hh) (hmi : two i0 i1 = some mi) (hsec : two s0 s1 = some sec)
+    (hus : fracText frac = some us) (hh24 : hh < 24) (hmi60 : mi < 60) (hs60 : sec < 60) :
+    splitTextDatetime (y0 :: y1 :: y2 :: y3 :: 45 :: m0 :: m1 :: 45 :: d0 :: d1 :: 32 :: h0 :: h1 :: 58 :: i0 :: i1 :: 58 :: s0 :: s1 :: frac)
+      = some (y, m, d, hh, mi, sec, us) := by
+  obtain ⟨hh0, hh1, hhv, _⟩ := two_some _ _ _ hhh
+  obtain ⟨hi0, hi1, hiv, _⟩ := two_some _ _ _ hmi
+  obtain ⟨hs0, hs1, hsv, _⟩ := two_some _ _ _ hsec
+  have hsp := splitTextDate_shape y0 y1 y2 y3 m0 m1 d0 d1 y m d hy hm hd
+  unfold splitTextDatetime
+  simp only [hsp, bne_self_eq_false, Bool.or_self, Bool.false_eq_true, if_false, hh0, hh1, hi0, hi1, hs0, hs1,
+    Bool.and_self, Bool.not_true, ← hhv, ← hiv, ← hsv]
+  rw [if_neg (by omega)]
+  rcases fracText_some frac us hus with ⟨hnil, hus0⟩ | ⟨ds, hfr, hne, hdg, hlen, husv⟩
+  · subst hnil; subst hus0; rfl
+  · subst hfr
+    have hl1 : ¬ ds.length < 1 := by
+      cases ds with
+      | nil => exact absurd rfl hne
+      | cons _ _ => simp
+    simp only [bne_self_eq_false, Bool.false_or, Bool.or_eq_true, decide_eq_true_eq, hdg, Bool.not_true,
+      Bool.false_eq_true, if_false, husv]
+    rw [if_neg (by omega)]
+
+/-- What `AppendBinaryValue` builds for a DATETIME / TIMESTAMP text made of
+    digits in the right places and a time of day: never an error. -/
+theorem datetimeBytes_digits (y0 y1 y2 y3 m0 m1 d0 d1 h0 h1 i0 i1 s0 s1 : UInt8) (frac : Bytes)
+    (y m d hh mi sec us : Nat)
+    (hy : four y0 y1 y2 y3 = some y) (hm : two m0 m1 = some m) (hd : two d0 d1 = some d)
+    (hhh : two h0 h1 = some hh) (hmi : two i0 i1 = some mi) (hsec : two s0 s1 = some sec)
+    (hus : fracText frac = some us) (hh24 : hh < 24) (hmi60 : mi < 60) (hs60 : sec < 60) :
+    datetimeBytes (y0 :: y1 :: y2 :: y3 :: 45 :: m0 :: m1 :: 45 :: d0 :: d1 :: 32 :: h0 :: h1 :: 58 :: i0 :: i1 :: 58 :: s0 :: s1 :: frac)
+      = .ok (if y = 0 ∧ m = 0 ∧ d = 0 ∧ hh = 0 ∧ mi = 0 ∧ sec = 0 ∧ us = 0 then [0]
+      else [11] ++ leBytes y 2 ++ [UInt8.ofNat m, UInt8.ofNat d, UInt8.ofNat hh, UInt8.ofNat mi, UInt8.ofNat sec]
+            ++ leBytes us 4) := by
+  have hsplit := splitTextDatetime_shape y0 y1 y2 y3 m0 m1 d0 d1 h0 h1 i0 i1 s0 s1 frac y m d hh mi sec us
+    hy hm hd hhh hmi hsec hus hh24 hmi60 hs60
+  unfold datetimeBytes
+  split
+  · rename_i hz
+    -- the text is "0000-00-00 00:00:00": all numbers are zero
+    have hz' := hz
+    unfold zeroDatetimeText at hz'
+    simp only [List.cons.injEq] at hz'
+    obtain ⟨e0, e1, e2, e3, -, e4, e5, -, e6, e7, -, e8, e9, -, e10, e11, -, e12, e13, e14⟩ := hz'
+    subst e0 e1 e2 e3 e4 e5 e6 e7 e8 e9 e10 e11 e12 e13 e14
+    simp only [four, two, fracText, isDigit, digVal] at hy hm hd hhh hmi hsec hus
+    simp at hy hm hd hhh hmi hsec hus
+    subst hy hm hd hhh hmi hsec hus
+    rfl
+  · obtain ⟨hh0, hh1, hhv, _⟩ := two_some _ _ _ hhh
     have hpy := parseYMD_shape y0 y1 y2 y3 m0 m1 d0 d1
       (32 :: h0 :: h1 :: 58 :: i0 :: i1 :: 58 :: s0 :: s1 :: frac) y m d hy hm hd
     have hclk := parseClock_shape [h0, h1] hh i0 i1 s0 s1 frac mi sec us
       (by intro X; rw [hhv]; exact getnum_two _ _ _ _ hh0 hh1) hh24 hmi hmi60 hsec hs60 hus
     simp only [List.cons_append, List.nil_append] at hclk
-    unfold parseDateTime at hb
-    rw [hpy] at hb
+    unfold parseDateTime
+    rw [hpy, hsplit]
     by_cases hmr : m = 0 ∨ m > 12
-    · simp [if_pos hmr] at hb
-    · simp only [if_neg hmr, skipChar_space_digit _ _ hh0, hclk] at hb
+    · simp only [if_pos hmr, Option.filter_none]
+      split <;> rfl
+    · simp only [if_neg hmr, skipChar_space_digit _ _ hh0, hclk]
       by_cases hdr : d < 1 ∨ d > daysIn m y
-      · simp only [if_pos hdr] at hb; cases hb
-      · simp only [if_neg hdr, Res.ok.injEq] at hb
-        subst hb
-        rw [Nat.mul_div_cancel _ (by decide : 0 < 1000)]
-        exact decodeDate11 y m d hh mi sec us rest (by omega) (by omega) (by omega) (by omega) (by omega) (by omega) (by omega)
+      · simp only [if_pos hdr, Option.filter_none]
+        split <;> rfl
+      · simp only [if_neg hdr]
+        rw [Option.filter_eq_some_iff.2 ⟨rfl, by simp [Nat.mul_mod_left]⟩]
+        simp only
+        rw [Nat.mul_div_cancel _ (by decide : 0 < 1000), if_neg (by omega)]
+
+/-- What `AppendBinaryValue` builds for a DATETIME / TIMESTAMP text of the
+    spec's shape: never an error. -/
+theorem datetimeBytes_shape (cell : Bytes) (y m d hh mi sec us : Nat)
+    (h : datetimeText cell = some (.dt y m d hh mi sec us)) :
+    datetimeBytes cell = .ok (if y = 0 ∧ m = 0 ∧ d = 0 ∧ hh = 0 ∧ mi = 0 ∧ sec = 0 ∧ us = 0 then [0]
+      else [11] ++ leBytes y 2 ++ [UInt8.ofNat m, UInt8.ofNat d, UInt8.ofNat hh, UInt8.ofNat mi, UInt8.ofNat sec]
+            ++ leBytes us 4) := by
+  obtain ⟨y0, y1, y2, y3, m0, m1, d0, d1, h0, h1, i0, i1, s0, s1, frac, y', m', d', hh', mi', sec', us', hc,
+    hy, hm, hd, hhh, hmi, hsec, hus, hm12, hd31, hh24, hmi60, hs60, hdv⟩ := datetimeText_some cell _ h
+  cases hdv
+  subst hc
+  exact datetimeBytes_digits y0 y1 y2 y3 m0 m1 d0 d1 h0 h1 i0 i1 s0 s1 frac y m d hh mi sec us
+    hy hm hd hhh hmi hsec hus hh24 hmi60 hs60
+
+theorem datetime_enc_dec (cell rest b : Bytes) (dv : Val) (h : datetimeText cell = some dv)
+    (hb : datetimeBytes cell = .ok b) : decodeDate (b ++ rest) = some (dv, rest) := by
+  obtain ⟨y0, y1, y2, y3, m0, m1, d0, d1, h0, h1, i0, i1, s0, s1, frac, y, m, d, hh, mi, sec, us, hc,
+    hy, hm, hd, hhh, hmi, hsec, hus, hm12, hd31, hh24, hmi60, hs60, hdv⟩ := datetimeText_some cell dv h
+  subst hdv
+  have hylt := (four_some _ _ _ _ _ hy).2.2.2.2.2
+  have huslt := (parseSecFrac_shape s0 s1 frac sec us hsec hs60 hus).2
+  rw [datetimeBytes_shape cell y m d hh mi sec us h] at hb
+  simp only [Res.ok.injEq] at hb
+  subst hb
+  by_cases hz : y = 0 ∧ m = 0 ∧ d = 0 ∧ hh = 0 ∧ mi = 0 ∧ sec = 0 ∧ us = 0
+  · rw [if_pos hz]
+    obtain ⟨e1, e2, e3, e4, e5, e6, e7⟩ := hz
+    subst e1; subst e2; subst e3; subst e4; subst e5; subst e6; subst e7
+    rfl
+  · rw [if_neg hz]
+    exact decodeDate11 y m d hh mi sec us rest (by omega) (by omega) (by omega) (by omega) (by omega) (by omega) (by omega)
 
 theorem splitColon_some (s i f : Bytes) (h : splitColon s = some (i, f)) :
     s = i ++ 58 :: f := by
